@@ -1,78 +1,58 @@
-import Vflow.Proofs.ShiftV9
+import Vflow.Proofs.ShiftIpfix
 /-!
-# NetFlow v9: an undecodable flowset is skipped without any other effect
+# IPFIX: an undecodable set is skipped without any other effect
 
-`setBytes sid body` is a flowset with id `sid` and body `body`.  It is *undecodable* when no template
-`sid` is cached for the exporter (`sid > 255`) or when `sid` is not a template / data flowset id
-(`2 ≤ sid ≤ 255`; ids 2 and 3 are handed to the data decoder with an empty template and end with the
-non-fatal `zeroRec`).  `decodeSet_skips`: the decoder state changes only by the reader moving over
-the flowset.  `outer_skips`: hence the outer loop continues on the rest as if the flowset were absent.
-`outer_ext` (locality of a clean prefix) and `decode_skips` lift this to whole datagrams.
+`setBytes sid body` is a set with id `sid` and body `body`.  It is *undecodable* when no template
+`sid` is cached for the exporter (`sid > 255`) or when `sid` is reserved (`4 ≤ sid ≤ 255`).
+(Set ids 0 and 1 are *not* skipped by the decoder: they end the decode with the fatal `invalidSet` /
+`emptyRec`.)  `decodeSet_skips`: the decoder state changes only by the reader moving over the set.
+`outer_skips`: hence the outer loop continues on the rest as if the set were absent.
+`outer_ext` (locality of a clean prefix) and `decode_skips` lift this to whole messages.
 -/
-namespace Vflow.V9
+namespace Vflow.Ipfix
 open Vflow
 
-/-- no template cached under this id, or an id that is neither a template nor a data flowset id -/
+/-- no template cached under this id, or a reserved set id -/
 def Undecodable (c : Cache) (addr : Bytes) (sid : Nat) : Prop :=
-  (sid > 255 ∧ c.lookup addr sid = none) ∨ (2 ≤ sid ∧ sid ≤ 255)
+  (sid > 255 ∧ c.lookup addr sid = none) ∨ (4 ≤ sid ∧ sid ≤ 255)
 
-/-- the (non-fatal) error `decodeSet` reports for an undecodable flowset -/
-def skipErr (sid : Nat) (body : Bytes) : Option Err :=
-  if sid > 255 then some .unknownTpl
-  else if 4 ≤ sid then none
-  else if body.length > 4 then some .zeroRec else none
+/-- the (non-fatal) error `decodeSet` reports for an undecodable set -/
+def skipErr (sid : Nat) : Option Err := if sid > 255 then some .unknownTpl else none
 
-theorem skipErr_nonfatal (sid : Nat) (body : Bytes) (e : Err) (h : skipErr sid body = some e) :
-    e.nonfatal = true := by
+theorem skipErr_nonfatal (sid : Nat) (e : Err) (h : skipErr sid = some e) : e.nonfatal = true := by
   unfold skipErr at h
   split at h
   · simp only [Option.some.injEq] at h; subst h; rfl
-  · split at h
-    · simp at h
-    · split at h
-      · simp only [Option.some.injEq] at h; subst h; rfl
-      · simp at h
+  · simp at h
 
-theorem skipErr_ne_fuel (sid : Nat) (body : Bytes) : skipErr sid body ≠ some .fuel := by
-  intro h; have := skipErr_nonfatal _ _ _ h; simp [Err.nonfatal] at this
-
-/-- the leftover skip, started right after the flowset header, moves over exactly the body -/
+/-- the leftover skip, started right after the set header, moves over exactly the body -/
 theorem skipRest_body (ctx : Ctx) (body rest : Bytes) (c2 : Nat) (cache : Cache) (recs : List Record)
-    (e1 : Option Err) (hlen : ctx.len = 4 + body.length) (hst : c2 = ctx.start + 4) (hfu : e1 ≠ some .fuel) :
+    (e1 : Option Err) (hlen : ctx.len = 4 + body.length) (hlt : 4 + body.length < 65536)
+    (hst : c2 = ctx.start + 4) :
     skipRest ctx ⟨⟨body ++ rest, c2⟩, cache, recs⟩ e1 = (⟨⟨rest, c2 + body.length⟩, cache, recs⟩, e1) := by
-  have hl : leftInt ctx ⟨body ++ rest, c2⟩ = (body.length : Int) := by
-    simp only [leftInt, hlen, hst]; omega
-  simp only [skipRest, if_neg hfu, hl]
+  have hl : (ctx.len + 65536 - consumed16 ctx ⟨body ++ rest, c2⟩) % 65536 = body.length := by
+    simp only [consumed16, hlen, hst]; omega
+  simp only [skipRest, hl]
   by_cases hb : body.length > 0
-  · rw [if_pos (by omega), Int.toNat_natCast, readN_append]
-  · rw [if_neg (by omega)]
+  · rw [if_pos hb, readN_append]
+  · rw [if_neg hb]
     have : body = [] := List.eq_nil_of_length_eq_zero (by omega)
     subst this; rfl
 
 theorem setLoop_reserved (ctx : Ctx) (fuel : Nat) (st : St) (h : 4 ≤ ctx.setId ∧ ctx.setId ≤ 255) :
-    setLoop ctx (fuel + 1) st = (st, none) := by
-  have h01 : ¬ (ctx.setId = 0 ∨ ctx.setId = 1) := by omega
-  simp only [setLoop, if_neg h01, if_pos h, ite_self]
+    setLoop ctx (fuel + 1) st = (st, none, false) := by
+  have h23 : ¬ (ctx.setId = 2 ∨ ctx.setId = 3) := by omega
+  simp only [setLoop, if_neg h23, if_pos h, ite_self]
 
-theorem setLoop_23 (ctx : Ctx) (fuel : Nat) (st : St) (h : ctx.setId = 2 ∨ ctx.setId = 3)
-    (htr : ctx.tr = emptyTpl) :
-    setLoop ctx (fuel + 1) st = (st, if contCond ctx st.r then some .zeroRec else none) := by
-  simp only [setLoop]
-  split
-  · rw [if_neg (by omega), if_neg (by omega), htr]
-    show (if st.r.cnt = st.r.cnt then _ else _) = _
-    rw [if_pos rfl]
-  · rfl
-
-/-- **skip, one flowset**: on an undecodable flowset followed by `rest`, `decodeSet` only moves the
-reader to `rest` (count advanced by the flowset length); cache and records are untouched and the
-error slot holds the non-fatal `skipErr` (or nothing).  Needs `fuel > 0` (the outer loop always
-supplies `remaining + 1`) and a flowset that is encodable (`sid`, `4 + |body|` fit in 16 bits). -/
+/-- **skip, one set**: on an undecodable set followed by `rest`, `decodeSet` only moves the reader to
+`rest` (count advanced by the set length); cache and records are untouched and the error slot holds
+the non-fatal `unknownTpl` (`sid > 255`) or nothing (reserved id).  Needs `fuel > 0` (the outer loop
+always supplies `remaining + 1`) and a set that is encodable (`sid`, `4 + |body|` fit in 16 bits). -/
 theorem decodeSet_skips (addr : Bytes) (fuel : Nat) (st : St) (sid : Nat) (body rest : Bytes)
     (hsid : sid < 65536) (hlen : 4 + body.length < 65536) (hfuel : 0 < fuel)
     (hrem : st.r.rem = setBytes sid body ++ rest) (hu : Undecodable st.cache addr sid) :
     decodeSet addr fuel st =
-      ({ st with r := ⟨rest, st.r.cnt + (setBytes sid body).length⟩ }, skipErr sid body) := by
+      ({ st with r := ⟨rest, st.r.cnt + (setBytes sid body).length⟩ }, skipErr sid) := by
   obtain ⟨⟨rem, cnt⟩, cache, recs⟩ := st
   simp only at hrem hu ⊢
   subst hrem
@@ -89,36 +69,17 @@ theorem decodeSet_skips (addr : Bytes) (fuel : Nat) (st : St) (sid : Nat) (body 
       · exact h.2
       · omega
     simp only [if_pos hbig, hnone, skipErr]
-    exact skipRest_body _ body rest _ cache recs _ rfl rfl (by simp)
-  · have h2 : 2 ≤ sid := by
+    exact skipRest_body _ body rest _ cache recs _ rfl hlen rfl
+  · have h4 : 4 ≤ sid := by
       rcases hu with h | h
       · omega
       · exact h.1
     simp only [if_neg hbig, Option.getD_none]
-    by_cases h4 : 4 ≤ sid
-    · rw [setLoop_reserved _ _ _ (by simp only; omega)]
-      simp only [skipErr, if_neg hbig, if_pos h4]
-      exact skipRest_body _ body rest _ cache recs _ rfl rfl (by simp)
-    · rw [setLoop_23 _ _ _ (by simp only; omega) rfl]
-      have hcc : contCond ⟨addr, sid, 4 + body.length, cnt, emptyTpl⟩ ⟨body ++ rest, cnt + 2 + 2⟩ =
-          decide (body.length > 4) := by
-        have hli : leftInt ⟨addr, sid, 4 + body.length, cnt, emptyTpl⟩ ⟨body ++ rest, cnt + 2 + 2⟩ =
-            (body.length : Int) := by
-          simp only [leftInt]; omega
-        unfold contCond
-        rw [hli]
-        simp only [List.length_append]
-        by_cases hb : body.length > 4
-        · have h1 : (body.length : Int) > 4 := by omega
-          have h2 : body.length + rest.length > 4 := by omega
-          simp [h1, h2, hb]
-        · have h1 : ¬ (body.length : Int) > 4 := by omega
-          simp [h1, hb]
-      simp only [hcc, decide_eq_true_eq, skipErr, if_neg hbig, if_neg h4]
-      refine skipRest_body _ body rest _ cache recs _ rfl rfl ?_
-      split <;> simp
+    rw [setLoop_reserved _ _ _ (by simp only; omega)]
+    simp only [skipErr, if_neg hbig, Bool.false_eq_true, if_false]
+    exact skipRest_body _ body rest _ cache recs _ rfl hlen rfl
 
-/-- **skip, outer loop**: with an undecodable flowset in front (and more than 4 octets in all), the
+/-- **skip, outer loop**: with an undecodable set in front (and more than 4 octets in all), the
 outer loop spends one iteration on it and continues on `rest` with the same cache and records, the
 count advanced, and `skipErr` appended to the non-fatal errors. -/
 theorem outer_skips (addr : Bytes) (fuel : Nat) (st : St) (errs : List Err) (sid : Nat) (body rest : Bytes)
@@ -127,16 +88,16 @@ theorem outer_skips (addr : Bytes) (fuel : Nat) (st : St) (errs : List Err) (sid
     (hgt : body.length + rest.length > 0) :
     outer addr (fuel + 1) st errs =
       outer addr fuel { st with r := ⟨rest, st.r.cnt + (setBytes sid body).length⟩ }
-        (errs ++ (skipErr sid body).toList) := by
+        (errs ++ (skipErr sid).toList) := by
   have hl : st.r.rem.length > 4 := by
     rw [hrem, List.length_append, setBytes_length]; omega
   simp only [outer]
   rw [if_pos hl, decodeSet_skips addr _ st sid body rest hsid hlen (by omega) hrem hu]
-  cases he : skipErr sid body with
+  cases he : skipErr sid with
   | none => simp
-  | some e => simp [skipErr_nonfatal _ _ _ he]
+  | some e => simp [skipErr_nonfatal _ _ he]
 
-/-- **skip, tail case**: an empty undecodable flowset at the very end is not even looked at (the
+/-- **skip, tail case**: an empty undecodable set at the very end is not even looked at (the
 outer loop stops at 4 remaining octets) -/
 theorem outer_skips_tail (addr : Bytes) (fuel : Nat) (st : St) (errs : List Err) (sid : Nat)
     (hrem : st.r.rem = setBytes sid []) :
@@ -270,7 +231,7 @@ theorem outer_ext (addr : Bytes) : ∀ (fuelT : Nat) (stT : St) (errs : List Err
 def Same (a b : St × Option Err × List Err) : Prop :=
   a.1.recs = b.1.recs ∧ a.1.cache = b.1.cache ∧ a.2.1 = b.2.1
 
-/-- **skip, after a clean prefix** (outer loop).  `pre` is a sequence of flowsets that the outer loop
+/-- **skip, after a clean prefix** (outer loop).  `pre` is a sequence of sets that the outer loop
 decodes on its own exactly to its end (`hpre`), leaving cache `c1`; `u = setBytes sid body` is
 undecodable for `c1`.  Then the outer loop on `pre ++ u ++ post` ends with the same records, cache
 and fatal-error slot as on `pre ++ post`, provided the run without `u` does not run out of fuel and
@@ -300,7 +261,7 @@ theorem outer_insert (addr pre post : Bytes) (sid : Nat) (body : Bytes) (k k1 : 
   · obtain ⟨mA', rfl⟩ : ∃ m, mA = m + 1 := ⟨mA - 1, by omega⟩
     rw [outer_skips addr mA' ⟨⟨setBytes sid body ++ post, k1⟩, c1, recs1⟩ errs1 sid body post hsid hlen rfl hu hgt]
     have hsh := outer_shift addr (setBytes sid body).length mA' ⟨⟨post, k1⟩, c1, recs1⟩
-      (errs1 ++ (skipErr sid body).toList)
+      (errs1 ++ (skipErr sid).toList)
     simp only [St.shift, Rd.shift] at hsh
     simp only
     rw [hsh]
@@ -324,7 +285,7 @@ theorem outer_insert (addr pre post : Bytes) (sid : Nat) (body : Bytes) (k k1 : 
 theorem decode_of_header (c : Cache) (addr hdr x : Bytes) (h : Hdr) (k : Nat)
     (hh : readHeader ⟨hdr, 0⟩ = some (h, ⟨[], k⟩)) :
     decode c addr (hdr ++ x) =
-      if h.headD 0 ≠ 9 then (.error .badVersion, c) else
+      if h.headD 0 ≠ 10 then (.error .badVersion, c) else
       match outer addr ((hdr ++ x).length + 1) ⟨⟨x, k⟩, c, []⟩ [] with
       | (st, some e, _) => (.error e, st.cache)
       | (st, none, errs) => (.ok (h, st.recs, errs), st.cache) := by
@@ -338,7 +299,7 @@ theorem decode_of_header (c : Cache) (addr hdr x : Bytes) (h : Hdr) (k : Nat)
   simp only [decode, hf']
   rfl
 
-/-- **skip, whole datagram.**  `hdr` is a packet header (`hh`), `pre` a sequence of flowsets that the
+/-- **skip, whole message.**  `hdr` is a message header (`hh`), `pre` a sequence of sets that the
 outer loop, started after the header with cache `c`, decodes on its own exactly to its end without a
 fatal error (`hpre`), leaving the cache `c1`; `u = setBytes sid body` is undecodable for `c1`.
 Then for every `post`, inserting `u` between `pre` and `post` changes neither the decoded records, nor
@@ -357,7 +318,7 @@ theorem decode_skips (c : Cache) (addr hdr pre post : Bytes) (sid : Nat) (body :
       (decode c addr (hdr ++ (pre ++ post))).1 = .error e := by
   rw [decode_of_header c addr hdr _ h k hh] at hfuel ⊢
   rw [decode_of_header c addr hdr _ h k hh]
-  by_cases hv : h.headD 0 ≠ 9
+  by_cases hv : h.headD 0 ≠ 10
   · simp only [if_pos hv, recordsOf, true_and, implies_true]
   · rw [if_neg hv] at hfuel
     rw [if_neg hv, if_neg hv]
@@ -383,4 +344,4 @@ theorem decode_skips (c : Cache) (addr hdr pre post : Bytes) (sid : Nat) (body :
     | none => simp [recordsOf, h1, h2]
     | some x => simp [recordsOf, h2]
 
-end Vflow.V9
+end Vflow.Ipfix
